@@ -369,6 +369,9 @@ func GenC08(r *detsim.Rand, tier string) *Plan {
 		addRegistrations(r, p)
 	}
 	freshSample(r, p, tier)
+	if r.Chance(1, 16) {
+		makeCard(r, p, 1, true) // hundreds to thousands of distinct tag names / struct types, the early ones met again later
+	}
 	return p
 }
 
@@ -490,6 +493,9 @@ func GenC12(r *detsim.Rand, tier string) *Plan {
 		addRegistrations(r, p)
 	}
 	freshSample(r, p, tier)
+	if r.Chance(1, 14) {
+		makeCard(r, p, 1, false) // hundreds to thousands of distinct rule texts / tag names / keys / types, the early ones met again later
+	}
 	return p
 }
 
@@ -576,6 +582,8 @@ func GenC11(r *detsim.Rand, tier string) *Plan {
 	freshSample(r, p, tier)
 	if !big && r.Chance(1, 12) {
 		coldWide(r, p)
+	} else if !big && r.Chance(1, 14) {
+		makeCard(r, p, 2+r.Intn(3), false) // several clients walk through the same few hundred distinct rule texts / tag names / keys
 	}
 	return p
 }
